@@ -370,8 +370,9 @@ def rule_pairing(repo):
                     t = norm(i.test)
                     conj = [norm(v) for v in i.test.values] if isinstance(i.test, ast.BoolOp) and isinstance(i.test.op, ast.And) else [t]
                     if (f"{xv}.slice_overlap({obj})" in conj or f"{obj}.slice_overlap({xv})" in conj) and f"{xv} in {mapname}" in conj and len(conj) == 2 \
-                            and any(norm(b) == f"{lst}.append({xv})" for b in i.body):
-                        ok2 = True
+                            and any(norm(b) == f"{lst}.append({xv})" for b in i.body) \
+                            and not any(isinstance(z, (ast.Break, ast.Return)) for z in ast.walk(sl[0])):
+                        ok2 = True     # every overlapping written sibling is collected (no early exit after the first hit)
             (r.ok if ok2 else r.bad)(m, FN, f"{side}: overlapping sibling slices of the read object are paired",
                                      *([] if ok2 else ["a block reading x[a:b] is not ordered after a block writing an overlapping "
                                                        "slice x[c:d]", outer.lineno]))
@@ -1122,6 +1123,8 @@ MUTANTS = [
     _m('pairing-cobj-key-swapped', GENDAG, "                  impl_constraints.add( (wr_blk, rd_blk) ) # wr < rd default\n                  constraint_objs[ (wr_blk, rd_blk) ].add( obj )",
        "                  impl_constraints.add( (wr_blk, rd_blk) ) # wr < rd default\n                  constraint_objs[ (rd_blk, wr_blk) ].add( obj )", 'R-C02-pairing'),
     _m('pairing-no-sibling-slices', GENDAG, "          if x.slice_overlap( obj ) and x in write_upblks:", "          if x in write_upblks and False:", 'R-C02-pairing'),
+    _m('pairing-first-sibling-only', GENDAG, "          if x.slice_overlap( obj ) and x in write_upblks:\n            writers.append( x )\n",
+       "          if x.slice_overlap( obj ) and x in write_upblks:\n            writers.append( x )\n            break\n", 'R-C02-pairing'),
     _m('pairing-parent-walk-stops', GENDAG, "        if x in write_upblks:\n          writers.append( x )\n        x = x.get_parent_object()", "        if x in write_upblks:\n          writers.append( x )\n          break\n        x = x.get_parent_object()", 'R-C02-pairing'),
     _m('pairing-genblk-reads-dropped', GENDAG, "    for data in [ upblk_reads, genblk_reads ]:", "    for data in [ upblk_reads ]:", 'R-C02-pairing'),
     _m('pairing-skip-ff-readers', GENDAG, "              if wr_blk != rd_blk:\n                # if rd_blk not in update_ff:\n                impl_constraints.add( (wr_blk, rd_blk) ) # wr < rd default\n                constraint_objs[ (wr_blk, rd_blk) ].add( obj )\n\n    # Collect all objs that read",
